@@ -23,7 +23,10 @@ theorem SameChain.trans {a b c : State} (h1 : SameChain a b) (h2 : SameChain b c
 theorem sameChain_of_aux {s s' : State} (h : Aux s s') : SameChain s s' :=
   ⟨h.2.2.2.2.1, h.2.2.2.2.2.2.2.1, h.2.2.2.2.2.2.2.2.1, h.2.2.2.2.2.2.2.2.2.2.2.2.1,
    h.2.2.2.2.2.2.2.2.2.2.2.2.2.1, h.2.2.2.2.2.2.2.2.2.1, h.2.2.2.2.2.2.2.2.2.2.1,
-   h.2.2.2.2.2.2.2.2.2.2.2.1, h.2.2.2.2.2.2.2.2.2.2.2.2.2.2⟩
+   h.2.2.2.2.2.2.2.2.2.2.2.1, h.2.2.2.2.2.2.2.2.2.2.2.2.2.2.1⟩
+
+theorem sameChain_addIndex (s : State) (b : Blk) (src : Src) : SameChain s (addIndex s b src) :=
+  ⟨rfl, rfl, rfl, rfl, rfl, rfl, rfl, rfl, rfl⟩
 
 theorem sameChain_storeBlock {s s1 : State} {b : Blk} (h : storeBlock s b = some s1) : SameChain s s1 := by
   unfold storeBlock at h
@@ -100,7 +103,7 @@ theorem processBlock_reject_tip {P : Params} (s : State) (b : Blk) (src : Src)
                   · exact ⟨SameChain.refl _, _, rfl⟩
                   · rename_i s1 hs1
                     have h1 := sameChain_storeBlock hs1
-                    have h2 : SameChain s1 (addIndex s1 b src) := sameChain_of_aux (aux_addIndex s1 b src)
+                    have h2 : SameChain s1 (addIndex s1 b src) := sameChain_addIndex s1 b src
                     have hb' : (addIndex s1 b src).best = tip :: rest := by
                       rw [h2.1, h1.1, hu.2.2.2.2.1, hbest]
                     have h3 := connectBestChain_reject (P := P) (addIndex s1 b src) b tip rest hb' hpar (hinv _)
@@ -229,7 +232,7 @@ theorem processBlock_side_placement {P : Params} (s : State) (b : Blk) (src : Sr
                     rw [hs1f.1, hs1f.2.1]; exact this
                   have hc := connectBestChain_light (P := P) (addIndex s1 b src) b tip rest hb' hpar hl'
                   rw [hc.1]
-                  exact ⟨h1.trans (sameChain_of_aux (aux_addIndex s1 b src)), hc.2, hs1f.2.2.1⟩
+                  exact ⟨h1.trans (sameChain_addIndex s1 b src), hc.2, hs1f.2.2.1⟩
           unfold acceptAndDrain
           split
           · exact ⟨sameChain_of_aux hu, by simp⟩
@@ -269,7 +272,7 @@ theorem maybeAcceptBlock_reject_tip {P : Params} (s : State) (b : Blk) (src : Sr
       · exact ⟨SameChain.refl _, _, rfl⟩
       · rename_i s1 hs1
         have h1 := sameChain_storeBlock hs1
-        have h2 : SameChain s1 (addIndex s1 b src) := sameChain_of_aux (aux_addIndex s1 b src)
+        have h2 : SameChain s1 (addIndex s1 b src) := sameChain_addIndex s1 b src
         have hb' : (addIndex s1 b src).best = tip :: rest := by rw [h2.1, h1.1, hbest]
         have h3 := connectBestChain_reject (P := P) (addIndex s1 b src) b tip rest hb' hpar (hinv _)
         exact ⟨(h1.trans h2).trans h3.1, h3.2⟩
